@@ -11,29 +11,45 @@ SPEC = {
             "2^k +- 1, 10^k, random to 2^63 snapped next to rounding ties; decimal rounding ties of the seconds field (m + 0.5) * 10^(6-p) us "
             "(every tie for p <= 3, strided for p = 4, 5, plus the ties next to every whole second) +- 1 us x 10 minute/hour/day offsets; format_time: every day boundary 1970..2100 +- 1 s, "
             "Feb 28/29 -> Mar 1 and Dec 31 -> Jan 1 of every year to 9999, hh:59:59 / 23:59:59.999999 carries, random to "
-            "9999-12-31, process TZ = UTC+05:45; call histories (one thread and four concurrent threads) mixing format_time_natural on the same/neighbouring second, format_duration and format_size before format_time; sizes: 2^(10k) x {1, 1023/1024, 1.005, 1.995, 999.994, 1023.99, ...} +- 2, "
+            "9999-12-31, process TZ = UTC+05:45; call histories (one thread and four concurrent threads) mixing format_time_natural on the same/neighbouring second, format_duration and format_size before format_time; "
+            "CALL PAIRS of every function (format_time, format_duration x precision, format_size x flag, parse_size, usecs_to_timeval, timeval_to_usecs): f(a), f(a+d) [, f(a) [, f(a+d)]] back to back on one thread "
+            "(optionally around an unjudged call or interleaved with a pair of another function), on two concurrent threads, and ping-ponged between two threads; a from the boundary/random families, "
+            "d from a delta table in every natural unit of the argument: 0, +-1 unit, +-(half) a printed digit, aligned-cell boundaries / midpoint / mirror, +-k*U, "
+            "+-k*2^j*U + r*U + jitter for j in {8,15,16,24,31,32,33,40,48,56,63}, r in [-61,61], U in {us, ms, s, min, h, day, printed digit} / {byte, 1024^m, printed digit} (every step that fits the domain, e.g. k*2^32 s + r s), "
+            "other precision / flag, f's own round trip; every call judged alone by the same oracles (event counters pairs:<fn>:<delta class> = pairs executed per class); sizes: 2^(10k) x {1, 1023/1024, 1.005, 1.995, 999.994, 1023.99, ...} +- 2, "
             "2^k +- 1, 0..4095, rounding ties, random, both include_bytes values, and canonical texts back through "
             "parse_size -> format_size; timeval: 2^k +- 1, second boundaries, random to 2^63. "
             "distinct_nontrivial = distinct (function, magnitude branch, precision, shape of the seconds field / calendar "
-            "kind / unit) classes, e.g. dur:lt1h:p0:pad0, time:nonleap-century, size:GB:1:tie, py:time:2xxx:feb29.",
+            "kind / unit) classes, e.g. dur:lt1h:p0:pad0, time:nonleap-century, size:GB:1:tie, py:time:2xxx:feb29, pair:time:pow2*s, pairmode:pingpong.",
     "level_text": "Every call is a real execution of the library code with memory/UB monitors on; the duration oracle is "
                   "exact integer arithmetic on the printed fields with an inclusive half-unit bound, so it has no "
                   "floating-point opinion of its own; the calendar is decided twice by code that shares nothing with "
                   "gmtime_r/strftime. The unit-boundary windows are enumerated completely (thorough: +-2 s at 1 us "
                   "resolution x 8 precisions), the rest is boundary-biased sampling; a defect confined to a duration far "
-                  "from every unit boundary, carry point and rounding tie could be missed.",
+                  "from every unit boundary, carry point and rounding tie could be missed. Call-sequence dependence (memoisation, "
+                  "per-thread or shared caches keyed on a narrowed / truncated / hashed argument) is exercised by the call-pair family: "
+                  "~320 delta classes x >= 1000 pairs each in quick; a dependence on a history longer than the previous few calls of the "
+                  "same function, or on a delta outside the table, could be missed.",
     "stages": [
         {"name": "c18", "variant": "asan", "shards": (16, 16), "timeout": (600, 3600)},
         {"kind": "py", "name": "c18-dump", "func": "c18:stage", "shards": (8, 16)},
     ],
     "min_evaluations": 1000000,
-    "min_classes": {"quick": 150, "thorough": 150},
+    "min_classes": {"quick": 200, "thorough": 200},
     "required_classes": [
         "dur:lt1s:p-1:*", "dur:lt1m:p0:*", "dur:lt1h:p0:pad0", "dur:lt1h:p3:carry60", "dur:lt1d:p6:*", "dur:ge1d:p-1:*",
         "dur:ge1d:p0:pad0", "dur:lt1d:p0:pad0", "dur:*:tie",
         "tiefam:p0", "tiefam:p3", "tiefam:p5", "tiefam:offset:59min", "tiefam:offset:2d-1min",
         "history:after-format_time_natural:same-second", "history:after-format_time_natural:next-second",
         "history:after-format_time:same-second", "history-threads:after-format_time_natural:same-second", "history:after-start:*",
+        "pair:time:zero", "pair:time:unit", "pair:time:digit", "pair:time:half-digit", "pair:time:snap", "pair:time:mult",
+        "pair:time:pow2*us", "pair:time:pow2*ms", "pair:time:pow2*s", "pair:time:pow2*min", "pair:time:pow2*h", "pair:time:pow2*day",
+        "pair:dur:zero", "pair:dur:digit", "pair:dur:half-digit", "pair:dur:snap", "pair:dur:other-precision", "pair:dur:roundtrip",
+        "pair:dur:pow2*us", "pair:dur:pow2*s", "pair:dur:pow2*digit",
+        "pair:size:zero", "pair:size:digit", "pair:size:half-digit", "pair:size:unit", "pair:size:mult", "pair:size:snap", "pair:size:pow2*byte",
+        "pair:size:other-flag", "pair:size:roundtrip", "pair:parse:zero", "pair:parse:same-buffer", "pair:parse:other-unit", "pair:parse:roundtrip",
+        "pair:u2tv:pow2*us", "pair:u2tv:pow2*s", "pair:u2tv:roundtrip", "pair:tv2u:pow2*us", "pair:tv2u:pow2*s", "pair:tv2u:zero",
+        "pairmode:seq", "pairmode:threads", "pairmode:pingpong", "py:time:pair:pow2*s", "py:time:pair:zero",
         "time:day-boundary", "time:leap-year", "time:leap-century", "time:nonleap-century", "time:common-year",
         "time:second59", "time:year-end", "time:random:99xx", "time:random:19xx", "time:extreme",
         "size:bytes:0:*", "size:KB:0:*", "size:MB:1:*", "size:GB:0:*", "size:TB:0:*", "size:PB:0:*", "size:EB:0:*",
